@@ -618,6 +618,10 @@ package ion
 //@ modifies nothing
 //@ ensures[C09,C10] err == nil ==> result.LocalSID == sid && sid >= 0
 //@ ensures[C09,C10] sid < 0 ==> err != nil
+//@ ensures[C09,C10] sid >= 0 && uint64(sid) > symbolTable.MaxID() ==> err != nil
+//@ ensures[C09,C10] sid >= 0 && uint64(sid) <= symbolTable.MaxID() ==> err == nil
+//@ ensures[C09,C10] err == nil && specFindByIDOK(symbolTable, uint64(sid)) ==> result.Text != nil && *result.Text == specFindByIDText(symbolTable, uint64(sid))
+//@ ensures[C09,C10] err == nil && !specFindByIDOK(symbolTable, uint64(sid)) ==> result.Text == nil
 //@ safe[C06]
 
 // ---------------------------------------------------------------------------
